@@ -79,8 +79,13 @@ type ek[T any] struct {
 	isNaN func(T) bool
 
 	direct bool // mk is cheap and pure: no pool
-	ents   []poolEnt[T]
-	idx    map[[2]int]int
+	// flat: the element type has size zero, so it has ONE value: every element
+	// equals every other, a sequence is its length.  The checks replace the
+	// values of the case by zeros and skip the comparisons of element addresses
+	// (pointers to zero-size objects tell nothing).
+	flat bool
+	ents []poolEnt[T]
+	idx  map[[2]int]int
 }
 
 // get returns THE element of this case for (v, id).
@@ -500,6 +505,40 @@ func anyKit() *ek[any] {
 	}
 }
 
+// The zero-size kinds, local to this package: struct{} ("unit"), [0]int
+// ("zarr") and the zero-size type that is NOT comparable, [0]func() ("zfn":
+// only where the functions take any element type).  Such a type has one
+// value, so a slice of it is just a length - which may be as large as
+// math.MaxInt, since the slice takes no memory (see checkUtilZero).
+const (
+	kindUnit = "unit"
+	kindZarr = "zarr"
+	kindZfn  = "zfn"
+)
+
+var zeroKinds = []string{kindUnit, kindZarr, kindZfn}
+
+// zeroKindsCmp are the comparable ones.
+var zeroKindsCmp = []string{kindUnit, kindZarr}
+
+func isZeroKind(kind string) bool { return kind == kindUnit || kind == kindZarr || kind == kindZfn }
+
+// zeroKit is the kit of a zero-size element type: the only value is 0.
+func zeroKit[T any](kind string) *ek[T] {
+	var z T
+	return &ek[T]{kind: kind, tag: tagOf(kind), direct: true, flat: true,
+		mk:     func(int, int) T { return z },
+		v:      func(T) int { return 0 },
+		id:     noID[T],
+		strict: func(T, T) bool { return true },
+		show:   func(T) string { return "{}" },
+		fits:   func(v int) bool { return v == 0 },
+	}
+}
+
+// zeros is a sequence of n zeros (what a sequence of a flat kind is).
+func zeros(n int) []int { return make([]int, n) }
+
 // maxF64 bounds the ints a float64 holds exactly.
 const maxF64 = 1<<53 - 1
 
@@ -542,7 +581,7 @@ var (
 
 // elemClassNames are the elem=<kind> classes, appended to every property's
 // label table; elemClass is the index of a kind in it.
-var elemClassNames = []string{"elem=int", "elem=string", "elem=i16", "elem=wide", "elem=ptr", "elem=any", "elem=f64", "elem=bytes", "elem=b8", "elem=words"}
+var elemClassNames = []string{"elem=int", "elem=string", "elem=i16", "elem=wide", "elem=ptr", "elem=any", "elem=f64", "elem=bytes", "elem=b8", "elem=words", "elem=unit(struct{})", "elem=zarr([0]int)", "elem=zfn([0]func())"}
 
 func elemClass(kind string) int {
 	switch kind {
@@ -564,6 +603,12 @@ func elemClass(kind string) int {
 		return 8
 	case kindWords:
 		return 9
+	case kindUnit:
+		return 10
+	case kindZarr:
+		return 11
+	case kindZfn:
+		return 12
 	}
 	return 0
 }
